@@ -26,7 +26,7 @@ ASSUMPTIONS = [
     "connected topologies are not generated (pygmo's asynchronous migration is documented as order dependent)",
 ]
 COMPONENTS = {"real": ["pyxel calibration (Calibration, ModelFittingDataTree, ArchipelagoDataTree, DaskBFE, DaskIsland)", "pygmo algorithms and island threads", "dask get_async"], "stub": ["thread pool / ThreadPoolExecutor (SimExecutor)", "archipelago.wait_check baton release (proxy)"]}
-BUDGET = {"quick": {"n": 64, "wall": 110, "determinism": 2}, "thorough": {"n": 4000, "wall": 1700, "determinism": 6}}
+BUDGET = {"quick": {"n": 64, "wall": 110, "determinism": 2}, "thorough": {"n": 7000, "wall": 1700, "determinism": 6}}
 REQUIRED_REACH = ["algo:nlopt", "algo:sade", "algo:sga", "fitness_calls_checked", "rerun_of_same_objects", "log_param", "vector_param", "per_component_bounds", "shared_bounds", "islands>1", "best_individuals", "contested_runs", "direct_fitness_calls", "vector_before_scalar"]
 
 
